@@ -316,11 +316,13 @@ def run_section(rep, name, cases, line_fn, impl_fn, oracle_fn=None, nontrivial_f
     lines = [line_fn(c) for c in cases]
     model = drive(lines) if lines else []
     nontrivial = set()
+    gots = []
     for c, line, m in zip(cases, lines, model):
         try:
             got = impl_fn(c)
         except Exception as e:  # the harness itself must not die on an implementation exception
             got = 'err ' + err_name(e)
+        gots.append(got)
         sec['cases'] += 1
         skipped = bool(skip_fn and skip_fn(m))
         if skipped:                         # the model declares the input outside its domain: counted, not compared
@@ -346,7 +348,45 @@ def run_section(rep, name, cases, line_fn, impl_fn, oracle_fn=None, nontrivial_f
     sec['distinct_nontrivial'] += len(nontrivial)
     if sec['mismatches']:
         rep.broken.append(f'correspondence:{name} ({sec["mismatches"]} of {sec["cases"]} cases differ)')
+    mirror_section(rep, name, lines, gots, skip_fn)
     if cases and len(rep.samples) < 12:
         i = len(cases) // 2
         rep.samples.append({'section': name, 'line': lines[i][:300], 'answer': model[i][:300]}
                            if sample_fn is None else sample_fn(cases[i]))
+
+
+def mirror_section(rep, name, lines, gots, skip_fn=None):
+    """Translation ties: when the check module registered `rep.mirror = {command: command through the GENERATED IR}`, the
+    lines of a section that use such a command are driven a second time through the interpreter of the translated source
+    and compared with the SAME answers of the real code (section `<name>-ir`): this tests the translator and the
+    interpreter against CPython, not the hand model.  `unsupported` answers (the translation left the subset) are counted,
+    not compared."""
+    mirror = getattr(rep, 'mirror', None)
+    if not mirror or not lines:
+        return
+    idx = [i for i, l in enumerate(lines) if l.split(' ', 1)[0] in mirror]
+    if not idx:
+        return
+    lines2 = []
+    for i in idx:
+        head, _, tail = lines[i].partition(' ')
+        lines2.append(mirror[head] + (' ' + tail if tail else ''))
+    model2 = drive(lines2)
+    sec = rep.section(name + '-ir')
+    sec['rule'] = ('the cases of section `%s` through the program GENERATED from the source (interpreter of the Python-subset IR) '
+                   'against the same answers of the real code' % name)
+    for i, l2, m2 in zip(idx, lines2, model2):
+        sec['cases'] += 1
+        if m2 == 'unsupported':
+            sec['dist']['unsupported'] = sec['dist'].get('unsupported', 0) + 1
+            continue
+        if skip_fn and skip_fn(m2):
+            sec['dist']['skipped-unmodelled'] = sec['dist'].get('skipped-unmodelled', 0) + 1
+            continue
+        sec['distinct_nontrivial'] += 1
+        if m2 != gots[i]:
+            sec['mismatches'] += 1
+            if len(rep.first_diffs) < 10:
+                rep.first_diffs.append({'section': name + '-ir', 'line': l2[:2000], 'model': m2[:2000], 'impl': gots[i][:2000]})
+    if sec['mismatches'] and not any(b.startswith(f'correspondence:{name}-ir') for b in rep.broken):
+        rep.broken.append(f'correspondence:{name}-ir ({sec["mismatches"]} of {sec["cases"]} cases differ)')
